@@ -497,8 +497,10 @@ def main(argv=None):
     _impl()
 
     ck.run_witnesses(["w11"])
-    ck.prove(extra_targets=["Bridge/BridgeUnionNoOverlap.v"], gen_kernels=["uno_split_event", "uno_loop_body"])
+    ck.prove(extra_targets=["Bridge/BridgeUnionNoOverlap.v", "Props/C15own.v"], gen_kernels=["uno_split_event", "uno_loop_body"])
     have_driver = ck.driver()
+    from . import theap            # "inputs are not modified": heap-level model (Props/C15own.v), tie A with aliasing
+    theap.heap_check(ck, "union_no_overlap", have_driver=theap.prepare(ck))
 
     quick = ck.tier == "quick"
     rng = ck.rng
@@ -566,8 +568,8 @@ def main(argv=None):
         "theorems assume: both lists time-sorted and internally non-overlapping (consecutive end <= next start), "
         "durations >= 0, list-one starts and ends millisecond-aligned (Event.timestamp floors to the ms)",
         "event data is opaque to union_no_overlap; it enters the model as harness-assigned labels",
-        "'inputs are not modified' is decided by the oracle only (deep compare + identity of the input objects "
-        "before/after each call), not by a theorem",
+        "'inputs are not modified': theorem over the heap-level model (Props/C15own.v: frame, freshness and refinement for "
+        "every aliasing of the arguments), tied by harness/theap.py",
     ]
     return ck.finish(RULE)
 
